@@ -147,6 +147,14 @@ func runC20(c c20Case) Result {
 	// settle polls until the endpoint's totals equal the client's tally and nothing is in flight.
 	settle := func() (string, string) {
 		deadline := time.Now().Add(90 * time.Second) // returns as soon as settled; patience only costs on the failing path
+		if c20SettleFailedOnce.Load() {
+			deadline = time.Now().Add(15 * time.Second) // rapid is shrinking a failure already established with full patience
+		}
+		defer func() {
+			if time.Now().After(deadline) {
+				c20SettleFailedOnce.Store(true)
+			}
+		}()
 		var last scrape
 		for {
 			last = ts.scrape(5 * time.Second)
@@ -408,6 +416,9 @@ func TestC20_Insertion(t *testing.T) {
 
 // c20BlockedConfirmed: a blocked metrics endpoint was established once with full patience and a control scrape.
 var c20BlockedConfirmed atomic.Bool
+
+// c20SettleFailedOnce: the counters did not reach the expected totals within the full 90 s once in this process.
+var c20SettleFailedOnce atomic.Bool
 
 // scrapeTimedOut reports whether a scrape error is the client's own time limit (as opposed to a refused connection,
 // a reset or a bad status).
